@@ -1587,8 +1587,42 @@ C15_UNARY = (["un:" + u for u in UNOPS] + ["clip", "clipnone", "maskt", "wheret"
                                            "copy", "resample", "binscalar", "rbinscalar", "layer", "layer", "layerv"])
 
 
-def gen_c15(rng, n, exhaustive=False):
+def gen_c15_masked_receivers(rng, n):
+    """operations that go through an internal helper object (layer, resample, fillna by a function) on receivers of
+    either side that have an undefined region: they must neither raise a mismatch nor change the side"""
     progs = []
+    for i in range(n):
+        b = Builder("int" if rng.random() < 0.7 else pick_domain(rng))
+        cl = "LR"[i % 2]
+        f = rand_spec(rng, cl, nanp=0.0, stepfree_p=0.0, maxsteps=4, span=8)
+        A0 = b.emit_any(f, rng)
+        A = b.reg("m")
+        lo0, hi0 = rng.choice([(1, 3), (2, 5), (9, 11), (-3, -1), (6, 10), (3, 4)])
+        b.add(f"maskt {A} {A0} {lo0} {hi0}")
+        h = b.reg("h")
+        kind = ["resample", "layer", "layerv", "fillnag"][(i // 2) % 4]
+        if kind == "resample":
+            b.add(f"resample {h} {A} {rng.choice(['mean', 'max', 'median'])} default 0:4 4:8 ;; lenient=1", focus=True)
+        elif kind == "layer":
+            b.add(f"copy {h} {A}")
+            b.add(f"layer {h} {fs(rng.choice([None, 0, 2]))} {fs(rng.choice([5, 7]))} {rng.choice([1, -2])}", focus=True)
+        elif kind == "layerv":
+            b.add(f"copy {h} {A}")
+            b.add(f"layerv {h} 0:5:1 2:none:-2 ;; route={rng.choice(['list', 'ndarray', 'series'])}", focus=True)
+        else:
+            g = b.emit_any(rand_spec(rng, cl, nanp=0.0, stepfree_p=0.3, maxsteps=3, span=8), rng)
+            b.add(f"fillna {h} {A} {g}", focus=True)
+        b.add(f"closed {h}", focus=True)
+        b.add(f"frame {h}", focus=True)
+        xs = " ".join(fs(x) for x in b.critical())
+        b.add(f"sample {h} {xs}", focus=True)
+        b.tags.update(op="masked:" + kind, ca=cl)
+        progs.append(b.program())
+    return progs
+
+
+def gen_c15(rng, n, exhaustive=False):
+    progs = gen_c15_masked_receivers(rng, max(16, n // 30))
     combos = [(op, ca, cb, sa, sb) for op in C15_OPS for ca in "LR" for cb in "LR"
               for sa in ("steps", "const", "allnan") for sb in ("steps", "const", "allnan")]
     ucombos = [(op, ca, None, sa, None) for op in C15_UNARY for ca in "LR" for sa in ("steps", "const", "allnan")]
@@ -1651,7 +1685,14 @@ def gen_c15(rng, n, exhaustive=False):
             elif op == "resample":
                 if sa != "steps":
                     continue
-                b.add(f"resample {h} {A} mean default 0:4 4:8 ;; lenient=1", focus=True)
+                if rng.random() < 0.7:
+                    # an undefined region inside or outside the span of the slices (resample re-masks through a helper
+                    # object that must carry the receiver's side)
+                    m = b.reg("m")
+                    lo0, hi0 = rng.choice([(1, 3), (2, 5), (9, 11), (-3, -1), (6, 10)])
+                    b.add(f"maskt {m} {A} {lo0} {hi0}")
+                    A = m
+                b.add(f"resample {h} {A} {rng.choice(['mean', 'max', 'median'])} default 0:4 4:8 ;; lenient=1", focus=True)
             elif op == "binscalar":
                 b.add(f"bin {h} {rng.choice(BINOPS_ARITH + BINOPS_REL + BINOPS_LOGIC)} {A} {scalar_token(rng)}", focus=True)
             else:
@@ -1840,8 +1881,38 @@ def gen_matrices(rng, n):
     return progs
 
 
+def gen_single_stepped(rng, n, domains):
+    """collections in which exactly one member has step points (the others are step-free constants, or there are no
+    others): the result is an ordinary step function of the same domain - combined again with a member afterwards"""
+    progs = []
+    for i in range(n):
+        b = Builder(domains[i % len(domains)])
+        cl = rng.choice("LR")
+        f = pick_spec(rng, cl, small_p=0.3, nanp=0.15, stepfree_p=0.0)
+        while not f.rows:
+            f = pick_spec(rng, cl, small_p=0.3, nanp=0.15, stepfree_p=0.0)
+        A = b.emit_any(f, rng)
+        members = [A]
+        for _ in range(rng.choice([0, 1, 2])):
+            c0 = b.reg()
+            b.add(f"new {c0} {rng.choice('LR')} {rng.choice(['0', '1', '-2', '3'])}")
+            members.append(c0)
+        rng.shuffle(members)
+        h = b.reg("h")
+        name = rng.choice(["sum", "mean", "max", "min", "median", "logical_or", "logical_and"])
+        cont = rng.choice(["list", "tuple", "dict", "ndarray", "series", "sarray"])
+        b.add(f"agg {h} {name} " + " ".join(members) + f" ;; container={cont}", focus=True)
+        b.observe(h)
+        k = b.reg("k")
+        b.add(f"bin {k} {rng.choice(['add', 'sub', 'mul'])} {h} {A}", focus=True)
+        b.add(f"frame {k}", focus=True)
+        b.tags.update(kind="singlestepped", name=name, container=cont)
+        progs.append(b.program())
+    return progs
+
+
 def gen_c18(rng, n):
-    progs = gen_matrices(rng, max(20, n // 10))
+    progs = gen_matrices(rng, max(20, n // 10)) + gen_single_stepped(rng, max(18, n // 30), DOMS_ALL)
     for _ in range(n):
         b = Builder(pick_domain(rng))
         cl = rng.choice("LR")
